@@ -29,7 +29,7 @@ for p in props:
     else:
         na.append({"property_id": pid, "reason": plan.NOT_CLAIMED.get(pid, "check not built yet in this round; see DESIGN.md §3 for the intended monitor")})
 
-engines = [{"name": n, "path": f"harness/src/bin/{n}.rs", "serves_properties": sorted(ps), "kind_free_text": t}
+engines = [{"name": n, "path": (f"harness/src/bin/{n}.rs" if n not in ("constprobe", "corpus") else n + "/"), "serves_properties": sorted(ps), "kind_free_text": t}
            for n, (ps, t) in plan.ENGINES.items()]
 m = {
     "version": 1,
